@@ -374,6 +374,7 @@ var alphabet = []op{
 	{Kind: "get", Name: "a"},
 	{Kind: "getver", Name: "a", Ver: 2},
 	{Kind: "getcond", Name: "a", Ver: 1},
+	{Kind: "getcond", Name: "a", Ver: 2},
 	{Kind: "info", Name: "a"},
 	{Kind: "list"},
 	{Kind: "put", Name: "b", Value: "z"},
